@@ -689,7 +689,7 @@ func (m *pop3Model) snapshotLoops() []snapLoop {
 func (c *Ctx) c13Views(m *pop3Model) {
 	r, p := c.R, c.P
 	loops := m.snapshotLoops()
-	r.Floor("C13/VIEWS", "loops over the snapshot", len(loops), 4)
+	r.Floor("C13/VIEWS", "loops over the snapshot", len(loops), 1)
 	ord := map[string]int{}
 	for _, lp := range loops {
 		if lp.fn == m.deleteProc {
@@ -813,7 +813,7 @@ func (c *Ctx) c13Views(m *pop3Model) {
 			}
 		})
 	}
-	r.Floor("C13/VIEWS", "single-message LIST/UIDL replies", nSingle, 2)
+	r.Floor("C13/VIEWS", "single-message LIST/UIDL replies", nSingle, 1)
 }
 
 // sprintfHasIndexPlusOne: v = fmt.Sprintf(fmt, args…) with an argument equal to the loop's
@@ -970,7 +970,7 @@ func (c *Ctx) c13Index(m *pop3Model) {
 			}
 		})
 	}
-	r.Floor("C13/PANIC/index", "argument-derived indices into the snapshot", n, 8)
+	r.Floor("C13/PANIC/index", "argument-derived indices into the snapshot", n, 1)
 }
 
 // viewMethod: under the LIST arm a line carries Size() of messages[idx], under UIDL ID();
